@@ -59,7 +59,7 @@ P = {
  "C16": ("exploration", "conservation / exactly-once laws recomputed independently on the simulated Simulator runs (chunk-budget knob, seeded schedules and partitions)",
          "On the same simulated runs as C15: test indices and complement partition the rows (last rows when ordered, equal to the documented split), one prediction per test row, per-arm statistics equal direct recomputation and train+test=total, the neighbourhood statistics of Radius/KNearest bandits recomputed from scratch (distances of the rows stored at that time to the one test row; numerically ambiguous rows skipped and counted), the default evaluation recomputed independently equals the reported one per batch and in total, counts sum to |test|, min<=mean<=max.",
          "Apart from the chunk-budget knob and worker partitions/schedules this property is a function of the input: most decisive variation is generated input; claimed as exploration, no more."),
- "C17": ("fault_enumeration", "enumeration of (47 policy combinations) x (90-entry catalogue of invalid calls, training shape errors and valid calls) x (5 history positions); replica that never saw the fault; continuation equality without re-synchronisation",
+ "C17": ("fault_enumeration", "enumeration of (47 policy combinations) x (91-entry catalogue of invalid calls, training shape errors and valid calls) x (5 history positions); replica that never saw the fault; continuation equality without re-synchronisation",
          "Quick covers the full cross product once: for every policy-combination class, every catalogue entry (invalid arguments of fit/partial_fit/predict/predict_expectations/add_arm/remove_arm/warm_start/__init__, shape errors inside training) and every history-position class, the call is made on the primary; if it raises, arm list, parameter view and ALL random-stream positions must equal a deep copy that never saw it and a continuation (always a further partial_fit and queries) must return exactly the same; in 30% of the runs the rejected call itself executes with n_jobs>1 under a drawn worker schedule, and half of the contextual continuations end with one context handed over as a pandas Series; thorough adds random histories around the fault.",
          "A catalogue call that does not raise makes no claim (counted as 'not rejected'). Shape errors surfacing from prediction are not in the catalogue (the property lists training shape errors only)."),
  "C18": ("exploration", "byte-level snapshots of all caller-owned objects around every call; caller mutations of the arms list, reuse of policy tuples and in-place re-use of the caller's data buffers injected; replica fed other container types and dtypes",
